@@ -220,7 +220,7 @@ fn operand_form_cases(ctx: &Ctx) -> Vec<(Case, bool)> {
 }
 
 pub fn run(ctx: &Ctx) {
-    ctx.set_rule("all histories of length <= 3 (quick; length 4 sampled; thorough: length 4 complete, 5 sampled) over 18 list operations x 3 variable pairs {alias, store in a container, element / range / nested / op-assign mutation, mutation inside a function that also rebinds its parameter, mutation inside a closure, return from a function, [s..], s + [], s[:], [..d] = s, rest parameter from spread, d = s; d += [k], store into another container, += with a list on an element} and 11 object operations likewise, every history followed by print of all three variables and all pairwise === and ==; a catalogue for scalar immutability and freshness of every building operation; random longer programs with the aliasing profile; oracle: reference heap model; beyond the small scope: every building operation and alias on lists of 31..300 elements built three ways, objects of that many keys and long strings (expected values computed in the harness); one random program in five from the big profile. Non-trivial = the history distinguishes at least one of: assignment copies / argument passing copies / + reuses its left operand (incl. += in place) / single spread aliases / full range read aliases / collect aliases / for iterates live; distinct = distinct source texts");
+    ctx.set_rule("all histories of length <= 3 (quick; length 4 sampled; thorough: length 4 complete, 5 sampled) over 18 list operations x 3 variable pairs {alias, store in a container, element / range / nested / op-assign mutation, mutation inside a function that also rebinds its parameter, mutation inside a closure, return from a function, [s..], s + [], s[:], [..d] = s, rest parameter from spread, d = s; d += [k], store into another container, += with a list on an element} and 11 object operations likewise, every history followed by print of all three variables and all pairwise === and ==; a catalogue for scalar immutability and freshness of every building operation; random longer programs with the aliasing profile; oracle: reference heap model; beyond the small scope: every building operation and alias on lists of 31..300 elements built three ways, objects of that many keys and long strings (expected values computed in the harness); one random program in five from the big profile; 8 building operations x 10 ways of writing the operand (call returning an existing list, method, property, element, ...): each result fresh, each operand an alias. Non-trivial = the history distinguishes at least one of: assignment copies / argument passing copies / + reuses its left operand (incl. += in place) / single spread aliases / full range read aliases / collect aliases / for iterates live; distinct = distinct source texts");
     ctx.replay_corpus(None);
     ctx.judge_all(scalar_cases(), Via::Cli, None);
     ctx.judge_all(large_cases(ctx), Via::Cli, None);
